@@ -17,7 +17,11 @@ use std::collections::{BTreeMap, HashMap, HashSet};
 use std::sync::atomic::{AtomicU64, Ordering};
 use std::sync::Arc;
 
-const KNOWN_STREAM_CLASS: &str = "C15-bulk-search-aborts-stream-on-invalid-item";
+/// a stream within the limit whose messages all decode: some request has no answer (plain VIOLATION)
+const ABORT_CLASS: &str = "C15-bulk-search-aborts-stream-on-invalid-item";
+/// a stream the server ends with a call-level status (undecodable message / over the batch limit): answers of
+/// requests accepted before that point are missing (classified through known_findings.json by the check)
+const CALL_STATUS_CLASS: &str = "C15-bulk-search-call-status-drops-accepted-answers";
 const STEP_TIMEOUT_MS: u64 = 60_000;
 
 #[derive(Clone, Debug, PartialEq)]
@@ -28,7 +32,8 @@ enum Resp {
     Query(bool),
     BulkQuery(Vec<bool>),
     Search(usize),
-    Stream { sent: u64, oks: u64, fin: Option<(String, String)> },
+    /// items in order: None = Ok answer, Some(status class) = Ok item carrying a per-item failure
+    Stream { sent: u64, items: Vec<Option<String>>, fin: Option<(String, String)> },
     Existed(bool),
     BatchDelete(u64),
     Flush,
@@ -37,6 +42,17 @@ enum Resp {
 }
 type Census = Vec<(u64, Option<(Vec<u32>, Meta)>)>;
 
+/// compact rendering for logs / replay files
+fn show(r: &Resp) -> String {
+    match r {
+        Resp::Stream { sent, items, fin } => {
+            let fails: Vec<String> = items.iter().enumerate().filter_map(|(i, x)| x.as_ref().map(|c| format!("#{}:{}", i, c))).take(12).collect();
+            format!("Stream {{ sent: {}, items: {} ({} ok, per-item failures [{}]), fin: {:?} }}", sent, items.len(), items.iter().filter(|x| x.is_none()).count(), fails.join(", "), fin)
+        }
+        Resp::BulkQuery(v) if v.len() > 16 => format!("BulkQuery({} results, {} found)", v.len(), v.iter().filter(|b| **b).count()),
+        other => format!("{:?}", other),
+    }
+}
 fn status_name(e: &RpcErr) -> String {
     match e.code {
         Code::InvalidArgument => "InvalidArgument".into(),
@@ -110,13 +126,29 @@ fn send(s: &mut Server, key: &str, op: &Op) -> Resp {
             let reqs: Vec<SearchReq> = rl_expand(v).iter().map(to_sreq).collect();
             match s.bulk_search(k, &reqs) {
                 Ok(items) => {
-                    let oks = items.iter().filter(|x| x.is_ok()).count() as u64;
+                    // since /repo b58b923 a refused request is an Ok item whose `error` is "<Code>: <message>"
+                    let got: Vec<Option<String>> = items
+                        .iter()
+                        .filter_map(|x| x.as_ref().ok())
+                        .map(|o| {
+                            if o.error.is_empty() {
+                                None
+                            } else {
+                                Some(match o.error.split(':').next().unwrap_or("") {
+                                    "InvalidArgument" => "InvalidArgument".to_string(),
+                                    "Internal" => "Internal".to_string(),
+                                    "ResourceExhausted" => "ResourceExhausted".to_string(),
+                                    _ => "Unknown".to_string(),
+                                })
+                            }
+                        })
+                        .collect();
                     let fin = items.iter().find_map(|x| x.as_ref().err()).map(|e| {
                         let mut m = e.message.clone();
                         m.truncate(160);
                         (status_name(e), m)
                     });
-                    Resp::Stream { sent: reqs.len() as u64, oks, fin }
+                    Resp::Stream { sent: reqs.len() as u64, items: got, fin }
                 }
                 Err(e) => refused(e),
             }
@@ -434,10 +466,24 @@ impl Canon {
                 }
             }
             Resp::Search(_) => "ObsResp OkSearch".into(),
-            Resp::Stream { oks, fin, .. } => format!("ObsStream {} {}", oks, match fin {
-                None => "None".to_string(),
-                Some((s, _)) => format!("(Some {})", st(s)),
-            }),
+            Resp::Stream { items, fin, .. } => {
+                let mut parts: Vec<(String, usize)> = vec![];
+                for it in items {
+                    let t = match it {
+                        None => "SOk".to_string(),
+                        Some(c) => format!("(SErr {})", c),
+                    };
+                    match parts.last_mut() {
+                        Some((x, n)) if *x == t => *n += 1,
+                        _ => parts.push((t, 1)),
+                    }
+                }
+                let l = if parts.is_empty() { "[]".to_string() } else { format!("({})", parts.iter().map(|(t, n)| format!("nrepeat {} {}", t, n)).collect::<Vec<_>>().join(" ++ ")) };
+                format!("ObsStream {} {}", l, match fin {
+                    None => "None".to_string(),
+                    Some((s, _)) => format!("(Some {})", st(s)),
+                })
+            }
             Resp::Existed(b) => format!("ObsResp (OkExisted {})", b),
             Resp::BatchDelete(n) => format!("ObsResp (OkBatchDelete {})", n),
             Resp::Flush | Resp::Restarted => "ObsResp OkFlush".into(),
@@ -510,6 +556,30 @@ fn read_limits() -> (Limits, u64, Value) {
     (Limits { max_batch: mb, decode_depth: depth }, mt, json!({"MAX_BATCH_SIZE": mb, "MAX_TOTAL_BULK_LOAD_DOCUMENTS": mt, "prost_RECURSION_LIMIT": depth, "prost_version": ver, "read_from_source": [f1, f2, f3]}))
 }
 
+/// protobuf message nesting of a filter as sent (mirrors Model/Requests.v pdepth; chains iteratively)
+fn fdepth(f: &F) -> u64 {
+    let mut cur = f;
+    let mut d = 0u64;
+    loop {
+        match cur {
+            F::Not(Some(g)) => {
+                d += 2;
+                cur = g;
+            }
+            F::And(v) | F::Or(v) if v.len() == 1 => {
+                d += 2;
+                cur = &v[0];
+            }
+            _ => break,
+        }
+    }
+    d + match cur {
+        F::Empty => 1,
+        F::Exact(..) | F::Range(..) | F::In(..) | F::Not(None) => 2,
+        F::And(v) | F::Or(v) => 2 + v.iter().map(fdepth).max().unwrap_or(0),
+        F::Not(Some(_)) => unreachable!(),
+    }
+}
 fn nonfinite(v: &Vecr) -> bool {
     v.0.iter().any(|(b, _)| !f32::from_bits(*b).is_finite())
 }
@@ -565,20 +635,29 @@ fn accepted_but_invalid(op: &Op, resp: &Resp, dim: usize, max_batch: u64) -> Opt
                 _ => None,
             }
         }
-        Op::BulkSearch(v) if v.iter().any(|(q, _)| spec_invalid_sq(q, dim)) => match resp {
-            Resp::Stream { fin: None, .. } => Some("a BulkSearch stream with an invalid request ended without any error".into()),
+        Op::BulkSearch(v) => match resp {
+            // every invalid request that was answered must have been answered with a per-item failure
+            Resp::Stream { items, .. } => {
+                let reqs = rl_expand(v);
+                let n = reqs.iter().zip(items.iter()).filter(|(q, it)| spec_invalid_sq(q, dim) && it.is_none()).count();
+                if n > 0 {
+                    Some(format!("{} invalid BulkSearch request(s) were answered with results instead of a per-item failure", n))
+                } else {
+                    None
+                }
+            }
             _ => None,
         },
         _ => None,
     }
 }
 
-fn judge(sc: &Script, obs: &[Obs], max_batch: u64) -> Judged {
+fn judge(sc: &Script, obs: &[Obs], max_batch: u64, decode_depth: u64) -> Judged {
     let mut j = Judged { failures: vec![], known: vec![], internal: BTreeMap::new(), refusals: 0, item_failures: 0 };
     let mut prev: Option<Census> = Some(POOL.iter().map(|id| (*id, None)).collect());
     for (i, (st, o)) in sc.steps.iter().zip(obs.iter()).enumerate() {
         let mut fail = |why: String| {
-            j.failures.push(json!({"script": sc.name, "step": i, "label": [st.label.0, st.label.1, st.label.2], "why": why, "response": format!("{:?}", o.resp)}));
+            j.failures.push(json!({"script": sc.name, "step": i, "label": [st.label.0, st.label.1, st.label.2], "why": why, "response": show(&o.resp)}));
         };
         // O1 an answer, in time, not a crash class
         if o.timed_out {
@@ -627,16 +706,29 @@ fn judge(sc: &Script, obs: &[Obs], max_batch: u64) -> Judged {
             _ => {}
         }
         // O2 every request of a BulkSearch stream gets an answer
-        if let Resp::Stream { sent, oks, fin } = &o.resp {
-            let answers = oks + if fin.is_some() { 1 } else { 0 };
-            if answers < *sent {
-                let deliberate = fin.as_ref().map(|(s, _)| !is_crash(s)).unwrap_or(false);
-                if deliberate {
-                    j.known.push(json!({"class": KNOWN_STREAM_CLASS, "script": sc.name, "step": i, "label": [st.label.0, st.label.1, st.label.2],
-                        "requests_sent": sent, "ok_answers": oks, "terminating_status": fin.as_ref().map(|x| x.0.clone()), "unanswered": sent - answers,
-                        "case": script_json(&minimal_for(sc, i))}));
-                } else {
-                    fail(format!("BulkSearch: {} requests sent, {} answers, no terminating status", sent, answers));
+        if let (Resp::Stream { sent, items, fin }, Op::BulkSearch(v)) = (&o.resp, &st.op) {
+            let answers = items.len() as u64 + if fin.is_some() { 1 } else { 0 };
+            let undecodable = v.iter().any(|(q, _)| q.filter.as_ref().map(|f| fdepth(f) > decode_depth).unwrap_or(false));
+            let server_ends_it = *sent > max_batch || undecodable;
+            if !server_ends_it {
+                // within the limit, every message decodes: one answer per request, no terminating status
+                if answers < *sent || fin.is_some() || items.len() as u64 != *sent {
+                    j.known.push(json!({"class": ABORT_CLASS, "script": sc.name, "step": i, "label": [st.label.0, st.label.1, st.label.2],
+                        "requests_sent": sent, "items_received": items.len(), "terminating_status": fin.as_ref().map(|x| x.0.clone()),
+                        "unanswered": sent.saturating_sub(answers), "case": script_json(&minimal_for(sc, i))}));
+                }
+            } else {
+                match fin {
+                    Some((s, _)) if !is_crash(s) => {
+                        // requests read before the terminating event: all but the undecodable message / the over-limit one
+                        let accepted = if undecodable { let mut n = 0u64; for q in rl_expand(v) { if q.filter.as_ref().map(|f| fdepth(f) > decode_depth).unwrap_or(false) { break; } n += 1; } n.min(max_batch) } else { max_batch };
+                        if (items.len() as u64) < accepted {
+                            j.known.push(json!({"class": CALL_STATUS_CLASS, "script": sc.name, "step": i, "label": [st.label.0, st.label.1, st.label.2],
+                                "requests_sent": sent, "items_received": items.len(), "accepted_before_the_status": accepted, "terminating_status": s,
+                                "unanswered": accepted - items.len() as u64, "case": script_json(&minimal_for(sc, i))}));
+                        }
+                    }
+                    _ => fail(format!("BulkSearch: the server had to end this stream with a status ({} requests, undecodable message: {}) but the observed end is {:?}", sent, undecodable, fin)),
                 }
             }
         }
@@ -829,7 +921,7 @@ fn main() {
             }
         };
         startup += st;
-        let j = judge(sc, &obs, lim.max_batch);
+        let j = judge(sc, &obs, lim.max_batch, lim.decode_depth);
         failures.extend(j.failures);
         known.extend(j.known);
         for (a, b) in j.internal {
@@ -866,19 +958,20 @@ fn main() {
         std::fs::write(format!("{}/cases_{}.v", out, shards), cases_text(sc, &obs, &lim, max_total)).unwrap();
         shards += 1;
         if samples.len() < 2 {
-            samples.push(json!({"script": sc.name, "first_steps": sc.steps.iter().zip(obs.iter()).skip(4).take(4).map(|(s, o)| json!({"label": [s.label.0, s.label.1, s.label.2], "response": format!("{:?}", o.resp)})).collect::<Vec<_>>()}));
+            samples.push(json!({"script": sc.name, "first_steps": sc.steps.iter().zip(obs.iter()).skip(4).take(4).map(|(s, o)| json!({"label": [s.label.0, s.label.1, s.label.2], "response": show(&o.resp)})).collect::<Vec<_>>()}));
         }
-        all.push(json!({"name": sc.name, "case": script_json(sc), "observations": obs.iter().map(|o| format!("{:?}", o.resp)).collect::<Vec<_>>()}));
+        all.push(json!({"name": sc.name, "case": script_json(sc), "observations": obs.iter().map(|o| show(&o.resp)).collect::<Vec<_>>()}));
     }
     // confirm the first known-class hit on a fresh server with its minimal script
+    known.sort_by_key(|k| k["class"] != ABORT_CLASS);
     let mut confirmed = Value::Null;
     if let Some(h) = known.first() {
         let mut m = script_from(&h["case"]);
         m.name = "confirm".into();
         match run_script(&m) {
             Ok((obs, _)) => {
-                let j = judge(&m, &obs, lim.max_batch);
-                confirmed = json!({"reproduced": !j.known.is_empty(), "observations": obs.iter().map(|o| format!("{:?}", o.resp)).collect::<Vec<_>>()});
+                let j = judge(&m, &obs, lim.max_batch, lim.decode_depth);
+                confirmed = json!({"class": h["class"], "reproduced": j.known.iter().any(|k| k["class"] == h["class"]), "observations": obs.iter().map(|o| show(&o.resp)).collect::<Vec<_>>()});
             }
             Err(e) => confirmed = json!({"reproduced": false, "error": e}),
         }
